@@ -116,7 +116,7 @@ EXTRA = {
  "C18": "Steps also include a directory replaced by a file of the same name (and back) within one step. Patterns also include literal patterns spelled non-canonically or with glob quoting; file names include '#', '?' and '%41'.",
  "C19": "Every 8th run has a file larger than the read buffer with an LF/CRLF line end placed on the buffer boundary and, half of the time, a line longer than two buffers; two thirds of the runs configure an HTTP listener (unix socket / tcp) as the binary does; the last run(s) are stalled at the hook to last 6.5 s (thorough also 35 s). Every fourth run finds its logs through one glob that also matches a stale unix socket file sorting first.",
  "C20": "The last run(s) hold one line for 1.6 s (thorough also 6 s and 31 s) with a reload requested meanwhile; every run is guarded by the stall oracle. Every third run alternates versions that change the kind of an exported metric.",
- "C21": "Bounds pool includes negative fractions; whole-number observations also go through an Int-typed capture into a third histogram; a fourth histogram's label sets are deleted and re-created (each must start from nothing).",
+ "C21": "Bounds pool includes negative fractions; whole-number observations also go through an Int-typed capture into a third histogram; a fourth histogram's label sets are deleted and re-created (each must start from nothing); one case in five declares 9-48 boundaries.",
  "C22": "A third of the stores are exported after a Prometheus scrape and aborted /varz and /graphite requests with the same exporter; plus a concurrent phase (6 formats x 150/3000 exports against 2 mutators, logical-clock stability oracle: exactly one record with its own value for every label set no mutation of which overlaps the export). Plus a real PushMetrics run with graphite (tcp), collectd (unix) and statsd (udp) targets configured at once: each collector must receive its own format's records, once.",
  "C23": "Generator also emits literals with a backslash right before their own delimiter and del-after durations that are not a whole number of seconds. Half of the programs are rendered fully parenthesised before formatting; literals include non-ASCII text.",
  "C24": "Operators also: unused declaration inside a decorator definition, pattern over the length limit only as a whole (literal + const, short literal + const + const); the Runtime sample is a submission history (defective, same bytes again, valid base, defective again). Operators also: defects inside operands whose value cannot matter (x * 0, x ** 0, true || x), patterns over the limit in bytes but under it in characters.",
